@@ -38,7 +38,7 @@ def gen(ctx):
                 else:
                     yield p.replace('b', sub_p), t.replace('b', sub_t), tag
     # random long self-overlapping pairs
-    n = 200000 if thorough else 6000
+    n = 200000 if thorough else 6000 * ctx.scale
     rng = ctx.rng
     units = ['a', 'ab', 'aab', 'aba', 'abc', '.example', '.com', 'x', 'é', 'a*', '/static/', '/']
     for _ in range(n):
